@@ -179,6 +179,8 @@ def item_lazy_indexer(repo, out):
             {'dim_keep[0]': ('first', 'Z'), 'dim_keep[-1]': ('last', 'Z'), 'dim_len': ('dim_len', 'Z')}, w, 'bool')
     _define(part, 'lazy_jump', Z('d'), h['__H3__'], d, w, 'bool')
     _dense_threshold(part, h['__H4__'], w)
+    _post_offsets(part, h['__H20__'], w)
+    _effects(part, _strip_doc(_func(_class(_parse(repo, rel), 'LazyIndexer', rel), '__getitem__', rel)), w)
     # one step of the dtype fold: `transform.dtype if transform.dtype is not None else dtype`
     h5 = _match(repo, rel, 'LazyIndexer', 'dtype', T.LAZY_DTYPE)['__H5__']
     w5 = rel + ':LazyIndexer.dtype'
@@ -196,6 +198,85 @@ def item_lazy_indexer(repo, out):
     part.append('Definition lazy_dtype_step (declared : option Z) (dtype : Z) : Z := '
                 'match declared with Some declared => %s | None => %s end.' % (a, b))
     out += part
+
+
+_UFUNC = {'np.subtract': ast.Sub, 'np.add': ast.Add, 'np.multiply': ast.Mult}
+
+
+def _post_offsets(out, node, where):
+    """post-selection of the dense strategy: `dim_keep - dim_keep[0]` (a NEW array).  The forms that compute it inside the
+    memory of dim_keep - which may be a view of self._lookup or the caller's own index array - are recognised too:
+    `np.subtract(dim_keep, dim_keep[0], out=dim_keep)`; they set lazy_post_inplace, against which the state theorem
+    (Props/C05.v: C05_reads_preserve_state) is checked."""
+    inplace = False
+    if isinstance(node, ast.Call) and ast.unparse(node.func) in _UFUNC and len(node.args) == 2 \
+            and [k.arg for k in node.keywords] == ['out']:
+        if ast.unparse(node.keywords[0].value) != 'dim_keep':
+            raise TranslateError('%s: post-selection written into `%s`' % (where, _short(node.keywords[0].value)))
+        inplace = True
+        node = ast.BinOp(left=node.args[0], op=_UFUNC[ast.unparse(node.func)](), right=node.args[1])
+    _define(out, 'lazy_post_offset', Z('x', 'first'), node, {'dim_keep': ('x', 'Z'), 'dim_keep[0]': ('first', 'Z')},
+            where, 'Z')
+    out.append('Definition lazy_post_inplace : bool := %s.' % ('true' if inplace else 'false'))
+
+
+_MUTATORS = {'sort', 'fill', 'resize', 'put', 'itemset', 'setfield', 'partition', 'byteswap', 'setflags',
+             'extend', 'insert', 'pop', 'remove', 'clear', 'reverse', 'update', 'setdefault'}
+_NP_MUTATORS = {'np.put', 'np.place', 'np.copyto', 'np.putmask', 'np.put_along_axis'}
+# objects of __getitem__: 0 the pre-allocated output buffer, 1 local bookkeeping lists (selection, segment_sizes),
+# 2 index arrays (may live in self._lookup or belong to the caller), 3 the indexer itself, 4 a chunk read from the dataset
+_OBJ = {'out_data': 0, 'selection': 1, 'segment_sizes': 1, 'dim_keep': 2, 'keep': 2, 'dkeep': 2, 'dlookup': 2,
+        'original_keep': 2, 'self': 3, 'chunk': 4}
+
+
+def _root(n):
+    while isinstance(n, (ast.Subscript, ast.Attribute)):
+        n = n.value
+    return n.id if isinstance(n, ast.Name) else None
+
+
+def _effects(out, fn, where):
+    """every store THROUGH an object (subscript / attribute assignment, augmented assignment, out= keyword, mutating
+    method) of LazyIndexer.__getitem__, as codes of the object written; and where the returned out_data comes from"""
+    writes, sources = [], []
+
+    def note(target, what):
+        r = _root(target)
+        if r not in _OBJ:
+            raise TranslateError('%s: %s through unknown object `%s`' % (where, what, _short(target)))
+        writes.append(_OBJ[r])
+    for n in ast.walk(fn):
+        if isinstance(n, (ast.Assign, ast.AnnAssign, ast.AugAssign)):
+            tgts = n.targets if isinstance(n, ast.Assign) else [n.target]
+            flat = []
+            for t in tgts:
+                flat += list(t.elts) if isinstance(t, (ast.Tuple, ast.List)) else [t]
+            for t in flat:
+                if isinstance(t, (ast.Subscript, ast.Attribute)):
+                    note(t, 'store')
+                elif isinstance(n, ast.AugAssign):
+                    note(t, 'augmented assignment')      # `x -= y` works inside the memory of an ndarray x
+                if isinstance(t, ast.Name) and t.id == 'out_data' and isinstance(n, ast.Assign):
+                    v = ast.unparse(n.value)
+                    sources.append(0 if v.startswith('np.empty(') else
+                                   1 if v == 'self.dataset[tuple([select[0][0] for select in selection])]' else 2)
+        elif isinstance(n, ast.Delete):
+            for t in n.targets:
+                note(t, 'del')
+        elif isinstance(n, ast.Call):
+            f = ast.unparse(n.func)
+            for k in n.keywords:
+                if k.arg == 'out':
+                    note(k.value, 'out=')
+            if f in _NP_MUTATORS and n.args:
+                note(n.args[0], f)
+            if isinstance(n.func, ast.Attribute) and (n.func.attr in _MUTATORS or n.func.attr == 'append'):
+                note(n.func.value, '.%s()' % n.func.attr)
+    out.append('(* %s: objects written through (0 output buffer, 1 local lists, 2 index arrays / lookup, 3 self, 4 chunk) *)'
+               % where)
+    out.append('Definition lazy_getitem_writes : list Z := [%s]%%Z.' % '; '.join(str(c) for c in sorted(set(writes))))
+    out.append('(* %s: what out_data is bound to (0 np.empty, 1 one element read with scalars, 2 anything else) *)' % where)
+    out.append('Definition lazy_result_sources : list Z := [%s]%%Z.' % '; '.join(str(c) for c in sorted(set(sources))))
 
 
 def _dense_threshold(out, test, where):
